@@ -97,6 +97,12 @@ func (rep *Report) takeRepoTrace(def *propDef, st *TraceStats, rs *run.RepoTrace
 	}
 	for _, ex := range st.Examples {
 		if def.claims(ex.Div.Kind, ex.Div.Detail) {
+			if orderExplains(ex.Div.Kind) {
+				if ok, _ := vetFreeOrder(def, ex.Rec.Cat, ex.Rec.Opt, ex.Rec.Ops); ok {
+					rep.note("order-tolerated."+ex.Div.Kind, ex.Div.Detail)
+					continue
+				}
+			}
 			rep.Findings = append(rep.Findings, Finding{Property: rep.Prop, Kind: ex.Div.Kind, Detail: ex.Div.Detail + " [" + ex.Rec.Cat.Note[:strings.Index(ex.Rec.Cat.Note+" of ", " of ")] + "]",
 				Stage: "repo-tests", Source: "special", Catalog: ex.Rec.Cat})
 		} else {
@@ -114,6 +120,12 @@ func replayRepoTrace(def *propDef, f *Finding) int {
 	}
 	for _, ex := range st.Examples {
 		if ex.Div.Kind == f.Kind && strings.HasPrefix(f.Detail, ex.Div.Detail) {
+			if orderExplains(ex.Div.Kind) {
+				if ok, _ := vetFreeOrder(def, ex.Rec.Cat, ex.Rec.Opt, ex.Rec.Ops); ok {
+					fmt.Println("allowed under another build order:", ex.Div.Kind, ex.Div.Detail)
+					return 0
+				}
+			}
 			fmt.Println("reproduced:", ex.Div.Kind, ex.Div.Detail)
 			return 1
 		}
